@@ -84,9 +84,11 @@ static mode_t harness_umask(mode_t m);
 #include <sys/resource.h>
 #include <sys/ioctl.h>
 #include <pthread.h>
+#include <limits.h>
 
 #define C2S_HEX_LIMIT 30000  /* longer client streams are reported by length + crc32 only */
 #define MAX_TIMEOUTS 3       /* after that many hanging cases the rest of the batch is answered `skipped` */
+#define MULTI_LIMIT_MS 30000 /* one `multi` case, all receivers together (generous: the machine may be loaded) */
 static int ntimeouts = 0;
 
 static int hexval(int c)
@@ -288,7 +290,7 @@ static void reap(pid_t pid, int *rc, int *sig)
 {
     int st = 0;
     *rc = -1; *sig = 0;
-    for (int i = 0; i < 400; i++) {          /* up to ~4 s, then kill */
+    for (int i = 0; i < 1500; i++) {         /* up to ~15 s, then kill */
         pid_t r = waitpid(pid, &st, WNOHANG);
         if (r == pid) goto got;
         if (r < 0) return;
@@ -354,7 +356,7 @@ static void op_sink(char *rest)
     dyn_add(&a.log, stream, sl);
     dyn_t errlog = { NULL, 0, 0 };
     dyn_add(&errlog, "", 0);
-    int to = pump(&a, &b, fdmode == 0, 0, perr[0], &errlog, 10000);
+    int to = pump(&a, &b, fdmode == 0, 0, perr[0], &errlog, 25000);
     int rc, sig;
     if (to < 0) { kill(pid, SIGKILL); ntimeouts++; }
     reap(pid, &rc, &sig);
@@ -407,7 +409,7 @@ static void op_rt(char *rest)
     dir_t b = { ss[0], sc[0], { NULL, 0, 0 }, 0, 0, 0 };   /* server -> client */
     dyn_t errlog = { NULL, 0, 0 };
     dyn_add(&errlog, "", 0);
-    int to = pump(&a, &b, 1, 1, perr[0], &errlog, 12000);
+    int to = pump(&a, &b, 1, 1, perr[0], &errlog, 30000);
     int crc, csig, src, ssig;
     if (to < 0) { kill(cpid, SIGKILL); kill(spid, SIGKILL); ntimeouts++; }
     reap(cpid, &crc, &csig);
@@ -503,6 +505,25 @@ static void *conn_thread(void *arg)
     return NULL;
 }
 
+/* the receiver threads of rpdcp run on small stacks: dsh.c creates every per-target thread with
+ * _dsh_attr_init(&attr, DSH_THREAD_STACKSIZE) (128 KiB; the value is passed in from the tree under test).  A
+ * receiver that keeps large objects in the frames of the recursive _sink() overruns such a stack on a deep tree. */
+#ifndef HARNESS_THREAD_STACKSIZE
+#define HARNESS_THREAD_STACKSIZE (128 * 1024)
+#endif
+static int create_receiver(conn_t *c)
+{
+    pthread_attr_t attr;
+    size_t sz = (size_t) (HARNESS_THREAD_STACKSIZE);
+    int rc;
+    if (sz < (size_t) PTHREAD_STACK_MIN) sz = (size_t) PTHREAD_STACK_MIN;
+    pthread_attr_init(&attr);
+    pthread_attr_setstacksize(&attr, sz);
+    rc = pthread_create(&c->th, &attr, conn_thread, c);
+    pthread_attr_destroy(&attr);
+    return rc;
+}
+
 static void drain_all(conn_t *cs, int k)
 {
     unsigned char tmp[4096];
@@ -570,20 +591,20 @@ static void multi_child(const char *jail, const char *cwd, int p, int y, int um,
         int ab[2] = { ua, ub };
         for (int x = 0; x < 2 && !to; x++) {
             cs[ab[x]].upark = 1;
-            if (pthread_create(&cs[ab[x]].th, NULL, conn_thread, &cs[ab[x]]) != 0) _exit(97);
-            if (wait_quiet(cs, k, ab[x], 0, &t0, 8000) < 0) to = 1;
+            if (create_receiver(&cs[ab[x]]) != 0) _exit(97);
+            if (wait_quiet(cs, k, ab[x], 0, &t0, MULTI_LIMIT_MS) < 0) to = 1;
             if (__atomic_load_n(&cs[ab[x]].parked, __ATOMIC_SEQ_CST)) was_parked = 1;
         }
         for (int x = 0; x < 2 && !to; x++) {
             __atomic_store_n(&cs[ab[x]].urelease, 1, __ATOMIC_SEQ_CST);
             while (__atomic_load_n(&cs[ab[x]].parked, __ATOMIC_SEQ_CST)) usleep(50);
-            if (wait_quiet(cs, k, ab[x], 0, &t0, 8000) < 0) to = 1;
+            if (wait_quiet(cs, k, ab[x], 0, &t0, MULTI_LIMIT_MS) < 0) to = 1;
         }
     }
     for (int i = 0; i < k && !to; i++) {
         if (i == ua || i == ub) continue;
-        if (pthread_create(&cs[i].th, NULL, conn_thread, &cs[i]) != 0) _exit(97);
-        if (wait_quiet(cs, k, i, 0, &t0, 8000) < 0) to = 1;
+        if (create_receiver(&cs[i]) != 0) _exit(97);
+        if (wait_quiet(cs, k, i, 0, &t0, MULTI_LIMIT_MS) < 0) to = 1;
     }
     for (int j = 0; j < maxch && !to; j++)
         for (int i = 0; i < k && !to; i++) {
@@ -595,7 +616,7 @@ static void multi_child(const char *jail, const char *cwd, int p, int y, int um,
                 if (w <= 0) break;
                 off += (size_t) w;
             }
-            if (wait_quiet(cs, k, i, 0, &t0, 8000) < 0) to = 1;
+            if (wait_quiet(cs, k, i, 0, &t0, MULTI_LIMIT_MS) < 0) to = 1;
             if (ra >= 0 && !race_release && __atomic_load_n(&cs[ra].parked, __ATOMIC_SEQ_CST)) {
                 was_parked = 1;
                 if (base_b < 0)
@@ -604,18 +625,18 @@ static void multi_child(const char *jail, const char *cwd, int p, int y, int um,
                     /* B has been through an _error() of its own since A was parked: A continues */
                     __atomic_store_n(&race_release, 1, __ATOMIC_SEQ_CST);
                     while (__atomic_load_n(&cs[ra].parked, __ATOMIC_SEQ_CST)) usleep(50);
-                    if (wait_quiet(cs, k, ra, 0, &t0, 8000) < 0) to = 1;
+                    if (wait_quiet(cs, k, ra, 0, &t0, MULTI_LIMIT_MS) < 0) to = 1;
                 }
             }
         }
     if (ra >= 0 && !race_release) {
         __atomic_store_n(&race_release, 1, __ATOMIC_SEQ_CST);
         while (__atomic_load_n(&cs[ra].parked, __ATOMIC_SEQ_CST)) usleep(50);
-        if (!to && wait_quiet(cs, k, ra, 0, &t0, 8000) < 0) to = 1;
+        if (!to && wait_quiet(cs, k, ra, 0, &t0, MULTI_LIMIT_MS) < 0) to = 1;
     }
     for (int i = 0; i < k && !to; i++) {
         shutdown(cs[i].pfd, SHUT_WR);
-        if (wait_quiet(cs, k, i, 1, &t0, 8000) < 0) to = 1;
+        if (wait_quiet(cs, k, i, 1, &t0, MULTI_LIMIT_MS) < 0) to = 1;
     }
     drain_all(cs, k);
     FILE *res = fdopen(resfd, "w");
@@ -676,7 +697,7 @@ static void op_multi(char *rest)
     dyn_t errlog = { NULL, 0, 0 };
     dyn_add(&errlog, "", 0);
     dyn_add(&a.log, "", 0);
-    int to = pump(&a, &b, 0, 0, perr[0], &errlog, 40000);
+    int to = pump(&a, &b, 0, 0, perr[0], &errlog, 90000);
     int rc, sig;
     if (to < 0) { kill(pid, SIGKILL); ntimeouts++; }
     reap(pid, &rc, &sig);
